@@ -121,6 +121,13 @@ def _apply_fnrefs(t):
             args = tuple(go(a) for a in x[2])
             if x[1].name in ("call_once", "call_mut", "call") and len(args) == 2:
                 f, tup = strip(args[0]), strip(args[1])
+                if isinstance(f, tuple) and f and f[0] == "agg" and f[1] == "closure" and isinstance(tup, tuple) and \
+                        tup[:2] == ("agg", "tuple") and 1 <= len(tup[4]) <= 2 and mir.CURRENT is not None:
+                    # a closure literal handed in as the callback (`self.zip_with(rhs, |a, b| a + b)`): its body, applied
+                    ops = tuple(tup[4])
+                    r = canon.apply_closure(mir.CURRENT, f, ops[0], ops[1] if len(ops) == 2 else None)
+                    if r is not None:
+                        return go(r)
                 if isinstance(f, tuple) and f and f[0] == "fnref" and isinstance(tup, tuple) and tup[:2] == ("agg", "tuple"):
                     ops = tuple(tup[4])
                     if f[1].name in OPS and "ops::" in (f[1].key() or "") and len(ops) == 2:
